@@ -13,6 +13,8 @@ observable state is compared with the lifecycle model:
     end-of-stream and `connected` is false; a refused connect raises OSError and leaves the client
     disconnected; body exceptions propagate; the address asked for is (configured ip, 9957 | 10000,
     AF_INET).
+Two client objects in one process (same host address, all three type combinations): every sequence of their
+connects, disconnects and operations to depth 4 (5) - one client's actions never change the other's flag or socket.
 The same runs feed a state graph over (model state, implementation fingerprint); the check reports
 whether the graph closed (every enabled action executed from every state).  A short list of the
 explored histories is replayed over real loopback TCP with the stock event loop.
@@ -340,6 +342,66 @@ def run_history(kind, actions, res, case, graph=True):
             wd.close()
 
 
+def twin(res, kinds, actions):
+    """Two client objects in one process and loop: what one does never changes the other's flag or socket."""
+    set_zone("UTC")
+    case = {"part": "twin", "kinds": kinds, "actions": actions}
+    with Clock(1_700_000_000.0):
+        loop = new_loop()
+        try:
+            ws = {"A": ApiWorld(kinds[0], "aabbcc", "18", ip="192.168.7.21", loop=loop, device=Device()),
+                  "B": ApiWorld(kinds[1], "3c4d5e", "a5", ip="192.168.7.21", loop=loop, device=Device(0x7E000000))}
+            connected = {"A": False, "B": False}
+            conn = {"A": None, "B": None}
+            for n, act in enumerate(actions):
+                who, what = act[-1], act[:-1]
+                w = ws[who]
+                tag = f"after action #{n} {act} of {actions} (types {kinds})"
+                if what == "connect":
+                    nc = len(loop.conns)
+                    out = task_outcome(loop.run_task(w.api.connect()))
+                    if out[0] != "ok" or len(loop.conns) != nc + 1:
+                        res.violation("connect-fails", case, f"{tag}: {out}")
+                        return
+                    conn[who] = loop.conns[-1]
+                    w.conn = conn[who]
+                    connected[who] = True
+                elif what == "disconnect":
+                    out = task_outcome(loop.run_task(w.api.disconnect()))
+                    if out[0] != "ok":
+                        res.violation("disconnect-raises", case, f"{tag}: {out[1]!r}")
+                        return
+                    connected[who] = False
+                else:  # op
+                    if not connected[who]:
+                        continue
+                    op, args, script = op_spec(w.kind, "op_ok")
+                    out, writes, rx = w.run_op(op, args)
+                    if out[0] != "ok" or not out[1].successful:
+                        res.violation("twin:operation", case, f"{tag}: {out[0]} {out[1]!r}")
+                        return
+                    other = ws["B" if who == "A" else "A"]
+                    if other.conn is not None and other.conn.poll():
+                        res.violation("twin:wrote-to-other-connection", case, f"{tag}: bytes appeared on the other client's connection")
+                        return
+                loop.settle()
+                for name in ("A", "B"):
+                    if ws[name].api.connected is not connected[name]:
+                        res.violation("twin:connected-flag", case, f"{tag}: client {name} connected={ws[name].api.connected}, expected {connected[name]}")
+                        return
+                    c = conn[name]
+                    if c is not None:
+                        c.poll()
+                        if connected[name] and c is ws[name].conn and (c.eof or c.closed):
+                            res.violation("twin:socket-closed-by-other", case, f"{tag}: client {name} is connected but its device saw end-of-stream")
+                            return
+                        if not connected[name] and not (c.eof or c.closed):
+                            res.violation("socket-left-open", case, f"{tag}: client {name} disconnected but its device did not see end-of-stream")
+                            return
+        finally:
+            loop.finish()
+
+
 def jobs(tier, seed):
     js = []
     for kind in (1, 2):
@@ -349,6 +411,8 @@ def jobs(tier, seed):
         js.append({"part": "short", "kind": kind})
         js.append({"part": "bfs", "kind": kind})
     js.append({"part": "tcp"})
+    for kinds in ((1, 1), (1, 2), (2, 2)):
+        js.append({"part": "twin", "kinds": list(kinds), "depth": 4 if tier == "quick" else 5})
     return js
 
 
@@ -356,6 +420,19 @@ def run_job(job):
     res = Res()
     if job["part"] == "tcp":
         real_tcp(res)
+        return res
+    if job["part"] == "twin":
+        acts = ["connectA", "disconnectA", "opA", "connectB", "disconnectB", "opB"]
+        for n in range(1, job["depth"] + 1):
+            for seq in itertools.product(acts, repeat=n):
+                if "connectA" not in seq and "connectB" not in seq:
+                    continue
+                if any(seq[i] == seq[i + 1] and seq[i].startswith("connect") for i in range(len(seq) - 1)):
+                    continue  # connect on a connected client: only the newest connection is judged (single-client part)
+                twin(res, job["kinds"], list(seq))
+                res.traces += 1
+                res.case(("twin", tuple(job["kinds"]), seq))
+        res.sample({"part": "twin", "kinds": job["kinds"], "actions": ["connectA", "connectB", "disconnectA", "opB"]})
         return res
     kind = job["kind"]
     if job["part"] == "bfs":
@@ -382,7 +459,9 @@ def run_job(job):
 
 def replay(case):
     res = Res()
-    if case.get("part") == "tcp":
+    if case.get("part") == "twin":
+        twin(res, case["kinds"], case["actions"])
+    elif case.get("part") == "tcp":
         real_tcp(res)
     else:
         run_history(case["kind"], case["actions"], res, case, graph=False)
